@@ -29,5 +29,17 @@ def deep_copy_internal""",'deep_merge is shallow')
 hv('HV06','C19','R19.7','vivarium/processes/timeline.py',"    for key in keys[:-1]:\n        dic = dic.setdefault(key, {})","    for key in keys[:-1]:\n        dic = dic.get(key, {})",'nested_set does not attach the sub-dictionaries it creates')
 hv('HV07','C05','R05.8','vivarium/core/store.py',"        if isinstance(inner, dict):\n            base.update(hierarchy_depth(inner, down))","        if isinstance(inner, dict):\n            base.update(hierarchy_depth(inner, path))",'hierarchy_depth loses the compartment key')
 hv('HV08','C06','R06.8',T,"        updated[head] = update_in(d[head], path[1:], f)","        updated[head] = update_in(d[head], path, f)",'update_in does not consume the path')
+S='vivarium/core/store.py'
+hv('HV20','C17','R17.4',S,"            if step == '..':\n                child = self.outer\n            else:\n                child = self.inner.get(step)","            if step == '..':\n                child = self.outer.outer if self.outer else None\n            else:\n                child = self.inner.get(step)","get_path: '..' skips a level")
+hv('HV21','C17','R17.4',S,"                return child.get_path(path[1:])","                return child.get_path(path[2:])",'get_path skips a step')
+hv('HV22','C17','R17.5',S,"            return above + (key,)\n        return tuple()","            return (key,) + above\n        return tuple()",'path_for builds the path in reverse')
+hv('HV23','C17','R17.6',S,"            self_path = self_path[1:]\n            to_path = to_path[1:]","            self_path = self_path[1:]",'path_to strips the prefix of one path only')
+hv('HV24','C17','R17.6',S,"            for _ in self_path]\n        path.extend(to_path)","            for _ in to_path]\n        path.extend(to_path)","path_to goes up once per element of the wrong path")
+hv('HV25','C17','R17.5',S,"        if self.outer:\n            return self.outer.top()\n        return self","        if self.outer:\n            return self.outer\n        return self",'top() stops at the parent')
+hv('HV26','C17','R17.3',T,"        if step == '..' and len(progress) > 0:\n            progress = progress[:-1]","        if step == '..' and len(progress) > 1:\n            progress = progress[:-1]","normalize_path keeps '..' after one element")
+hv('HV27','C17','R17.1',T,"        updated[head] = update_in(d[head], path[1:], f)","        updated[head] = update_in(d, path[1:], f)",'update_in descends into the wrong dictionary')
+hv('HV28','C17','R17.2',T,"        assoc_path(d, path, f(node))","        assoc_path(d, path[1:], f(node))",'paths_to_dict drops the first key')
+hv('HV29','C17','R17.4',S,"                return self.outer._establish_path(\n                    remaining,","                return self.outer._establish_path(\n                    path,",'_establish_path does not consume the .. step')
+hv('HV30','C17','R17.5',S,"        if looking == value:\n            found = key\n            break","        if looking == value:\n            found = value\n            break",'key_for_value returns the value')
 (root/'vsa/catalogue.json').write_text(json.dumps(cat,indent=1))
 print('ok')
